@@ -460,6 +460,18 @@ pub fn main(args: &[String]) {
                 histories += 1;
             }
         }
+        "typedseeds" => {
+            // every catalogue position: ALL 4096 coordinate pairs, near-miss notation and one legal input
+            let nshards = arg_u64(args, "--nshards", 1) as usize;
+            let shard = (seed % 1000) as usize % nshards.max(1);
+            for (i, p) in seeds.iter().enumerate() {
+                if i % nshards.max(1) != shard {
+                    continue;
+                }
+                typed_game(&mut tr, &mut rng, p.setup(), 2, 1, 50);
+                histories += 1;
+            }
+        }
         "shuffle" => {
             for (fen, cyc) in SHUFFLES.iter() {
                 let c: Vec<&str> = cyc.split_whitespace().collect();
